@@ -662,15 +662,71 @@ func isNewParam(par *ssa.Parameter) bool {
 		refParams = loadAnchorParams()
 	}
 	names, ok := refParams[fnName(fn)]
-	if !ok || len(names) == len(fn.Params) {
+	if !ok {
 		return false
 	}
-	for _, n := range names {
-		if n == par.Name() {
+	// the reference parameter of that name, with its type (receiver first)
+	refTypes := refParamTypes(fnName(fn))
+	for i, n := range names {
+		if n != par.Name() {
+			continue
+		}
+		if refTypes == nil || i >= len(refTypes) {
+			return false
+		}
+		// same name, same type: the old parameter; same name but another type (the receiver
+		// `db *DB` replaced by a parameter `db *sql.DB`): a new one
+		return refTypes[i] != shortName(par.Type().String())
+	}
+	// no reference parameter of that name: renamed (same position, same type) or new
+	for i, q := range fn.Params {
+		if q == par && len(fn.Params) == len(names) && refTypes != nil && i < len(refTypes) && refTypes[i] == shortName(par.Type().String()) {
 			return false
 		}
 	}
-	return len(fn.Params) > len(names)
+	return len(fn.Params) >= len(names)
+}
+
+// refParamTypes parses the reference fingerprint "recv|func(T1, T2) (R...)" of a function
+// into its parameter types, receiver first (nil when unknown).
+func refParamTypes(name string) []string {
+	sig, ok := refAnchors[name]
+	if !ok {
+		return nil
+	}
+	bar := strings.IndexByte(sig, '|')
+	if bar < 0 {
+		return nil
+	}
+	var out []string
+	if recv := sig[:bar]; !strings.HasPrefix(recv, "pkg:") && recv != "" {
+		out = append(out, recv)
+	}
+	rest := sig[bar+1:]
+	if !strings.HasPrefix(rest, "func(") {
+		return nil
+	}
+	depth, start := 0, len("func(")
+	for i := start; i < len(rest); i++ {
+		switch rest[i] {
+		case '(', '[', '{':
+			depth++
+		case ')', ']', '}':
+			if depth == 0 {
+				if i > start {
+					out = append(out, strings.TrimSpace(rest[start:i]))
+				}
+				return out
+			}
+			depth--
+		case ',':
+			if depth == 0 {
+				out = append(out, strings.TrimSpace(rest[start:i]))
+				start = i + 1
+			}
+		}
+	}
+	return out
 }
 
 // typesPkgOf: the package of fn, through generic instantiations (whose Pkg is nil).
@@ -1050,3 +1106,66 @@ func delegateOf(fn *ssa.Function) *ssa.Function {
 	}
 	return fn
 }
+
+// newFieldValues: fa addresses a field the reference tree's struct did not have.  Its
+// value is whatever production code stores into it (typically once, in a constructor).
+func newFieldValues(fa *ssa.FieldAddr) []ssa.Value {
+	if refFields == nil {
+		refFields = loadAnchorFields()
+	}
+	name := fieldAddrName(fa)
+	if len(refFields) == 0 || refFields[name] || curProg == nil || strings.HasPrefix(name, "struct.") || strings.HasPrefix(name, "?") {
+		return nil
+	}
+	// only types of the production packages that existed on the reference tree or not: a
+	// field of a new type that is filled by a literal is handled like a bundled parameter
+	if nt, ok := types.Unalias(deref(fa.X.Type())).(*types.Named); !ok || nt.Obj().Pkg() == nil {
+		return nil
+	} else if rel, inMod := relPkg(nt.Obj().Pkg()); !inMod || !prodPkgs[rel] {
+		return nil
+	}
+	if v, ok := newFieldCache[name]; ok {
+		return v
+	}
+	var vals []ssa.Value
+	for _, g := range curProg.ProdFuncs() {
+		if g.Parent() != nil {
+			continue
+		}
+		for _, st := range storesToField(g, name) {
+			vals = append(vals, st.Val)
+		}
+	}
+	newFieldCache[name] = vals
+	return vals
+}
+
+var newFieldCache = map[string][]ssa.Value{}
+
+// isErrPredicate: the call's true result implies that its first argument (an error) is
+// non-nil: a listed predicate, or a new helper with one error parameter whose every
+// possibly-true return entails `param != nil` (isLeaseConflict(err) wrapping errors.As).
+func isErrPredicate(call *ssa.Call) bool {
+	if errPredicates[calleeName(call)] {
+		return len(call.Call.Args) > 0
+	}
+	h := call.Call.StaticCallee()
+	if !isNewHelper(h) || len(call.Call.Args) == 0 || h.Signature.Results().Len() != 1 {
+		return false
+	}
+	if v, ok := newPredCache[h]; ok {
+		return v
+	}
+	newPredCache[h] = false // recursion guard
+	ok := false
+	if len(h.Params) > 0 && isErrorType(h.Params[0].Type()) {
+		if bt, isB := h.Signature.Results().At(0).Type().Underlying().(*types.Basic); isB && bt.Kind() == types.Bool {
+			par := h.Params[0]
+			ok = calleeEstablishes(h, false, true, []FP{cmpFact(func(v ssa.Value) bool { return v == ssa.Value(par) }, token.NEQ, vNil(), "")}, 0)
+		}
+	}
+	newPredCache[h] = ok
+	return ok
+}
+
+var newPredCache = map[*ssa.Function]bool{}
